@@ -352,6 +352,39 @@ def sim_next_sched(orig, self, event, scheduler_frequency, last_scheduler_start_
 
 
 wrap(Simulator, "_Simulator__get_next_scheduler_event", sim_next_sched)
+def _decision_entry(placement):
+    from workload import Placement
+    kind = "cancel" if placement.placement_type == Placement.PlacementType.CANCEL_TASK else \
+        ("place" if placement.is_placed() else "unplaced")
+    strat = placement.execution_strategy if kind == "place" else None
+    return ["decision", un(placement.task), kind, us(placement.placement_time) if kind == "place" else None,
+            us(strat.runtime) if strat is not None else None, placement.task.state.name]
+
+
+def sim_decide(orig, self, event_time, placement):
+    """Simulator.__create_events_from_task_placement: marks where the processing of one decision begins (stream S-decisions)"""
+    try:
+        LOG.append(_decision_entry(placement))
+    except Exception:
+        LOG.append(["decision", None, "unreadable", None, None, None])
+    CUR["in_decision"] = True
+    try:
+        return orig(self, event_time, placement)
+    finally:
+        CUR["in_decision"] = False
+
+
+def sim_decide_skip(orig, self, time, placement, drop_skipped_tasks=False):
+    if not CUR.get("in_decision"):
+        try:
+            LOG.append(_decision_entry(placement))
+        except Exception:
+            LOG.append(["decision", None, "unreadable", None, None, None])
+    return orig(self, time, placement, drop_skipped_tasks)
+
+
+wrap(Simulator, "_Simulator__create_events_from_task_placement", sim_decide)
+wrap(Simulator, "_Simulator__create_events_from_task_placement_skip", sim_decide_skip)
 wrap(Simulator, "_Simulator__step", sim_step)
 wrap(Simulator, "_Simulator__handle_event", sim_handle)
 
